@@ -154,7 +154,8 @@ fn relative_import(from: &[String], target: &[String]) -> String {
 // the pools contain names that spell the same text once the dots are dropped (a.b.f, ab.f, a.bf):
 // qualified names must not be confused when the boundary between module and function moves
 const FN_NAMES: [&str; 4] = ["f", "g", "h", "bf"];
-const MOD_NAMES: [&str; 4] = ["a", "b", "c", "ab"];
+// "mysuper" ends in the keyword that means "parent module" without being it
+const MOD_NAMES: [&str; 5] = ["a", "b", "c", "ab", "mysuper"];
 
 fn gen_tree(c: &mut Choices, depth: u32, is_root: bool, err: &mut Option<&'static str>, allow_err: bool) -> MTree {
     let mut fns: Vec<(String, usize)> = vec![];
@@ -333,8 +334,15 @@ fn build(bytes: &[u8]) -> Built {
                     }
                 }
                 c.pick(&options).clone()
-            } else {
+            } else if c.chance(80) {
                 "nowhere.zz".to_string()
+            } else {
+                // a near miss: a name put together from the names in use, whether or not it
+                // designates anything (the model decides; names that extend an import alias, such
+                // as `bf` next to an import ending in `.b`, must not resolve through that import)
+                let mut segs: Vec<String> = (0..c.draw(3)).map(|_| c.pick(&MOD_NAMES).to_string()).collect();
+                segs.push(c.pick(&FN_NAMES).to_string());
+                segs.join(".")
             };
             match resolve(&tree, &flat, &f.path, &spelled) {
                 Res::Unique(j) if j > i => {
